@@ -164,10 +164,28 @@ XmlKeepWhitespaceOK(in, out) == SigKept(XmlSig(in), XmlSig(out)) /\ Collapsed(ou
    delimiters": the delimited spans are the same strings in the same order. *)
 TemplateOK(si, so) == so = si
 
+(* "... and nothing else": KeepComments / KeepSpecialComments / KeepDefaultAttrVals / KeepQuotes decide
+   about comments, default attributes and quoting only.  Compared with the output tz of the same document
+   under the same configuration with these four switched off, the output has the same tags, the same other
+   attributes with the same values, the same raw text and the same text signature (items, inline tag names
+   and gaps) once what the switched-on options govern (comments; default-valued attributes; quoting) is disregarded.  (KeepEndTags,
+   KeepDocumentTags and KeepWhitespace legitimately change the white space state of the token loop, so
+   they stay as they are on both sides.) *)
+QClass(q) == IF q <= 1 THEN q ELSE 2                     \* no value / unquoted / quoted
+Skeleton(toks, o) ==
+  SeqMap(LAMBDA t : <<t.k, t.n, t.t, t.v, IF o.KeepQuotes THEN 0 ELSE QClass(t.q)>>,
+         SelectSeq(toks, LAMBDA t : IsTag(t) \/ (t.k = "A" /\ ~(o.KeepDefaultAttrVals /\ IsDefaultAttr(t)))))
+SameSig(a, b) == a.items = b.items /\ a.names = b.names /\ a.gaps = b.gaps
+NothingElseOK(out, tz, o) ==
+  /\ Skeleton(out, o) = Skeleton(tz, o)
+  /\ SeqMap(LAMBDA t : t.b, Kind(out, "R")) = SeqMap(LAMBDA t : t.b, Kind(tz, "R"))
+  /\ SameSig(HtmlSig(out), HtmlSig(tz))
+AttrCommentOpts(o) == o.KeepComments \/ o.KeepSpecialComments \/ o.KeepDefaultAttrVals \/ o.KeepQuotes
+
 (* All HTML clauses for one configuration o (record of the option fields): "option is on =>
    its relation holds".  Used by the trace specification (real code) and by the design model. *)
 Cl(name, ok) == [name |-> name, ok |-> ok]
-HtmlClauses(in, out, o, si, so) == <<
+HtmlClauses(in, out, o, si, so, tz) == <<
   Cl("KeepEndTags", o.KeepEndTags => KeepEndTagsOK(in, out, o.KeepDocumentTags)),
   Cl("KeepDocumentTags", o.KeepDocumentTags => KeepDocumentTagsOK(in, out)),
   Cl("KeepQuotes", o.KeepQuotes => KeepQuotesOK(in, out)),
@@ -175,7 +193,8 @@ HtmlClauses(in, out, o, si, so) == <<
   Cl("KeepWhitespace", o.KeepWhitespace => HtmlKeepWhitespaceOK(in, out, o.Delims)),
   \* KeepConditionalComments is a deprecated alias: exercised through the command line table only
   Cl("Comments", ~o.KeepConditionalComments => CommentsOK(in, out, o.KeepComments, o.KeepSpecialComments, o.Delims)),
-  Cl("TemplateDelims", o.Delims # <<>> => TemplateOK(si, so)) >>
+  Cl("TemplateDelims", o.Delims # <<>> => TemplateOK(si, so)),
+  Cl("NothingElse", (AttrCommentOpts(o) /\ ~o.KeepConditionalComments) => NothingElseOK(out, tz, o)) >>
 
 (***************************************************************************)
 (* Precision (CSS, JS, JSON, SVG): "number of significant digits to        *)
